@@ -125,7 +125,7 @@ func argumentsOfCorrectType(c *ctx) []Offence {
 			return
 		}
 		if !c.validLiteral(def.Type, a.Value) {
-			out = append(out, off(fmt.Sprintf("argument %q: %s is not a valid %s", a.Name.Value, nast.PrintValue(a.Value), def.Type), a.Value, a))
+			out = append(out, off(fmt.Sprintf("argument %q: %s is not a valid %s", a.Name.Value, valueText(a.Value), def.Type), a.Value, a))
 		}
 	}})
 	return out
@@ -148,8 +148,14 @@ func defaultValuesOfCorrectType(c *ctx) []Offence {
 			o.Optional = !known // the type is unknown: nothing can be said about it for sure
 			out = append(out, o)
 		}
+		if !known && t.Kind != "nonnull" {
+			// nothing can be said about a literal for a type that does not exist
+			o := off(fmt.Sprintf("default value of $%s whose type %s is unknown", vd.Var.Name.Value, t), vd.Default, vd)
+			o.Optional = true
+			out = append(out, o)
+		}
 		if known && c.s.IsInput(t.Base()) && !c.validLiteral(t.Nullable(), vd.Default) {
-			out = append(out, off(fmt.Sprintf("default value %s of $%s is not a valid %s", nast.PrintValue(vd.Default), vd.Var.Name.Value, t), vd.Default, vd))
+			out = append(out, off(fmt.Sprintf("default value %s of $%s is not a valid %s", valueText(vd.Default), vd.Var.Name.Value, t), vd.Default, vd))
 		}
 	}})
 	return out
@@ -655,7 +661,16 @@ func variablesAreInputTypes(c *ctx) []Offence {
 	var out []Offence
 	c.walk(&hooks{varDef: func(op *nast.Operation, vd *nast.VarDef) {
 		t, known := c.typeOfNode(vd.Type)
-		if t == nil || !known || opaque(t.Base()) {
+		if t == nil || opaque(t.Base()) {
+			return
+		}
+		if !known {
+			// the spec's IsInputType is false for a type that does not exist,
+			// the rule's intent presupposes a known type (KnownTypeNames
+			// reports it): open
+			o := off(fmt.Sprintf("variable $%s has the unknown type %s", vd.Var.Name.Value, t), vd.Type)
+			o.Optional = true
+			out = append(out, o)
 			return
 		}
 		if !c.s.IsInput(t.Base()) {
